@@ -444,11 +444,18 @@ CHECKS = {
 # commits in /repo that add build-tag guarded hooks (none: the overlay technique needs no source hooks)
 # generator dimensions added after the seeding rounds (DESIGN.md sections 7 and 8); appended to the rule texts
 RULE_ADDENDA = {
-    "C01": "In addition every application write length 1..420 (thorough 1..1600) is sent over one DNS logical connection, one write at a time, and echoed back (all residues of the write length modulo the tunnel's chunk size; always counted non-trivial).",
+    "C01": "TestConcurrentTransfers: 2-5 logical connections of one pair, each announcing itself with a 16-byte header, transfer drawn payloads both ways at the same instant; every one is compared byte for byte. In addition every application write length 1..420 (thorough 1..1600) is sent over one DNS logical connection, one write at a time, and echoed back (all residues of the write length modulo the tunnel's chunk size; always counted non-trivial).",
+    "C03": "TestHTTPPathAllowLists: for an HTTP server with two (thorough: three) websocket paths over a table of two channels every combination of per-path allow-lists {all,[x],[y],[x,y]} and every path in use is enumerated.",
+    "C04": "Experiment 3 also configures the TLS endpoint without any certificate in a quarter of its cases (refusing to start is fine, serving in clear is not).",
+    "C05": "For the matching server certificate two more client certificates are enumerated: one of a foreign CA that has the subject of the server's CA (a Go TLS client withholds a certificate whose issuer the server did not name, so only this one is really presented) and an expired one of the right CA.",
+    "C06": "TestConcurrentHandshakes: 4-16 generated peers of both roles run alone and then all at the same instant over carriers that take 0-2 ms to consume each written message; every peer's outcome must equal its outcome in isolation.",
+    "C07": "TestBlackoutThenHealed (real poll loop): 0-4 writes, then 1-30 consecutive lost exchanges during the next write (which may give up and report an error with its accepted count), then a healed path; oracle: exactly the accepted bytes arrive within 15 s and a later write terminates and arrives.",
+    "C11": "Single-record-type paths and the transparent path additionally move every write length 1..450 (thorough 1..2600) each way after the handshake.",
+    "C12": "Stray names also carry the domain's text partly inside a label (escaped dots and backslashes). TestClientOperationsAgainstHostileServer: every client operation (version handshake, each autodetection, option setting, data exchange, whole Handshake) against a server that answers every query in the tunnel's envelope with a drawn cycle of arbitrary command letters and bodies (error texts with NUL bytes, Base32 of arbitrary bytes, raw bytes); oracle: no panic, returns within 90 s.",
     "C13": "openMany: 2-5 version handshakes issued at the same instant (also as the first step of a history); identifiers must be distinct, must be the ones the server accepted, and every session must work.",
-    "C14": "Histories also carry refused requests (none / unknown channel / channel whose target refuses connections; one after every working connection) and 0-6 idle logical connections open when the session ends, whose sockets and goroutines must be released and whose applications must see end-of-stream.",
+    "C14": "Histories also carry refused requests (none / unknown channel / channel whose target refuses connections; one after every working connection) and 0-6 idle logical connections open when the session ends, whose sockets and goroutines must be released and whose applications must see end-of-stream. Ending outage-and-recovery: the session is cut while the server is unreachable, two attempts fail, then 20 further connections must work and the footprint must return to idle.",
     "C15": "A DNS peer either keeps polling and is silent on the tunnelled stream only, or stops sending DNS queries altogether once what it sent is acknowledged, leaving the server's answer unfetched; the 5 DNS stall points x {polling, not polling} are enumerated in both tiers in addition to the random draws.",
-    "C16": "After a loss the further local connections are made one at a time or 2-5 at the same instant; a deviation is re-run once and counts only when reproduced.",
+    "C16": "After a loss the further local connections are made one at a time or 2-5 at the same instant; a deviation is re-run once and counts only when reproduced. The silent enumeration also has scripted upstreams that answer the first request (and, offering StartTLS, the upgrade with 101) and then never speak again.",
     "C17": "Further dimensions: the close may be a shutdown of the writing direction only (the closer then must see its own connection end within the same bound); a request for an unknown channel may be refused between the first and second write. TestWriteThenCloseHammer: 40000 (thorough 400000) short write-then-close connections at GOMAXPROCS 2, every one must deliver its bytes before end-of-stream.",
 }
 for _k, _add in RULE_ADDENDA.items():
